@@ -1,6 +1,7 @@
 /-
   The chrony poller iteration, all cases together (`Proofs/RsPoller.lean`, `RsPollerA/B/C.lean`).
 -/
+import ClockBound.Proofs.RsPollerS
 import ClockBound.Proofs.RsPollerA
 import ClockBound.Proofs.RsPollerB
 import ClockBound.Proofs.RsPollerC
